@@ -4,9 +4,8 @@ CONSTANTS
   Shapes = {"scatter"}
   MaxFaults = 1
   Batches = 2
-  Mutants = {"none"}
-  Dev = 1
+  Mutants = {"short_stream"}
 INIT Init
 NEXT Next
-INVARIANT NoPartial
+INVARIANT NoPartial2
 CHECK_DEADLOCK FALSE
